@@ -48,6 +48,12 @@ pub enum P {
     /// async: jh = spawn(child: req a -> event); jh.abort() at once; jh.await; mark m  (abort before the
     /// spawned task was ever polled: it must never run, and the waiter must be released)
     AbortSpawned(S, S),
+    /// async: req a -> event(a); then the task fires its OWN command's abort handle; then mark m in the
+    /// same poll (outputs emitted before / in the poll of the abort must still be delivered)
+    SelfAbort(S, S),
+    /// async: select(req a, req b); the winner's event; the still-pending loser future is handed to a
+    /// newly spawned task, the original task goes on to await req c
+    HandOff(S, S, S),
     /// `request(a).map(f).then_send(got)`
     ReqMap(S),
     /// `stream(a).map(f).then_send(got)`
@@ -135,8 +141,8 @@ impl P {
             | P::SelfWake(a, _) | P::Trigger(a, _) | P::SiblingAbort(a, _) => vec![a],
             P::ReqReq(a, b) | P::ReqStream(a, b) | P::StreamReq(a, b) | P::StreamStream(a, b)
             | P::Join(a, b) | P::Select(a, b) | P::SpawnJoin(a, b) | P::SpawnAfter(a, b) | P::Burst(a, b) | P::Channel(a, b)
-            | P::Unordered(a, b) | P::JoinTwice(a, b) | P::MixedNotify(a, b) | P::AbortSpawned(a, b) => vec![a, b],
-            P::AbortChild(a, b, c) | P::IntoFuture(a, b, c) | P::JoinReq(a, b, c) | P::SelectJoinReq(a, b, c) => vec![a, b, c],
+            | P::Unordered(a, b) | P::JoinTwice(a, b) | P::MixedNotify(a, b) | P::AbortSpawned(a, b) | P::SelfAbort(a, b) => vec![a, b],
+            P::AbortChild(a, b, c) | P::IntoFuture(a, b, c) | P::JoinReq(a, b, c) | P::SelectJoinReq(a, b, c) | P::HandOff(a, b, c) => vec![a, b, c],
             _ => vec![],
         }
     }
@@ -234,6 +240,8 @@ pub fn async_atoms() -> Vec<P> {
         P::IntoFuture(s0(), s0(), s0()),
         P::JoinReq(s0(), s0(), s0()),
         P::AbortSpawned(s0(), s0()),
+        P::SelfAbort(s0(), s0()),
+        P::HandOff(s0(), s0(), s0()),
         P::SelectJoinReq(s0(), s0(), s0()),
     ]
 }
